@@ -719,9 +719,15 @@ func (t *tr) errName(e ast.Expr) string {
 		if n, ok := errorsMap[x.Name]; ok {
 			return n
 		}
+		if strings.HasPrefix(x.Name, "Err") {
+			return ".badArgs" // an error of the module without a name of its own in the model: a refusal
+		}
 	case *ast.SelectorExpr:
 		if n, ok := errorsMap[x.Sel.Name]; ok {
 			return n
+		}
+		if strings.HasPrefix(x.Sel.Name, "Err") {
+			return ".badArgs"
 		}
 	case *ast.CallExpr: // errorsmod.Wrap(ErrX, ..), errorsmod.Wrapf(ErrX, ..)
 		if f := t.text(x.Fun); f == "fmt.Errorf" || f == "errors.New" {
